@@ -745,21 +745,71 @@ func runC19(c *Ctx) {
 		// raw arm: under form == BytesRaw the Write call's operand is the parameter
 		rawK := c.extConst(gcePkg, "BytesRaw")
 		found := false
+		// the form the arms are selected on: the parameter itself, or what a same-package resolver handed the parameter
+		// makes of it (BytesAuto settled first)
+		isForm := func(v ssa.Value) bool {
+			if v == ssa.Value(wbf.Params[1]) {
+				return true
+			}
+			if hc, ok := v.(*ssa.Call); ok {
+				if g := hc.Call.StaticCallee(); g != nil && load.RelPkg(g) == "gcetcbendorsement" {
+					for _, a := range hc.Call.Args {
+						if a == ssa.Value(wbf.Params[1]) {
+							return true
+						}
+					}
+				}
+			}
+			return false
+		}
+		// the write of the raw arm: w.Write(bytes) itself, or a same-package helper handed (bytes, w) whose body makes
+		// that very call on its own parameters
+		writesGiven := func(call *ssa.Call) bool {
+			if call.Call.IsInvoke() {
+				return call.Call.Method.Name() == "Write" && call.Call.Args[0] == ssa.Value(wbf.Params[0]) && call.Call.Value == ssa.Value(wbf.Params[2])
+			}
+			g := call.Call.StaticCallee()
+			if g == nil || g.Blocks == nil || load.RelPkg(g) != "gcetcbendorsement" {
+				return false
+			}
+			bi, wi := -1, -1
+			for i, a := range call.Call.Args {
+				if a == ssa.Value(wbf.Params[0]) {
+					bi = i
+				}
+				if a == ssa.Value(wbf.Params[2]) {
+					wi = i
+				}
+			}
+			if bi < 0 || wi < 0 || bi >= len(g.Params) || wi >= len(g.Params) {
+				return false
+			}
+			nW, okW := 0, false
+			for _, gb := range g.Blocks {
+				for _, gi := range gb.Instrs {
+					if gc, ok := gi.(*ssa.Call); ok && gc.Call.IsInvoke() && gc.Call.Method.Name() == "Write" {
+						nW++
+						if gc.Call.Args[0] == ssa.Value(g.Params[bi]) && gc.Call.Value == ssa.Value(g.Params[wi]) {
+							okW = true
+						}
+					}
+				}
+			}
+			return okW && nW == 1
+		}
 		for _, b := range wbf.Blocks {
 			for _, in := range b.Instrs {
 				call, ok := in.(*ssa.Call)
-				if !ok || !call.Call.IsInvoke() || call.Call.Method.Name() != "Write" {
+				if !ok || !writesGiven(call) {
 					continue
 				}
 				for _, cf := range dominatingConds(b) {
 					bo, ok := cf.Cond.(*ssa.BinOp)
-					if !ok || bo.Op != token.EQL || !cf.Val || bo.X != wbf.Params[1] {
+					if !ok || bo.Op != token.EQL || !cf.Val || !isForm(bo.X) {
 						continue
 					}
 					if k, ok := bo.Y.(*ssa.Const); ok && rawK != nil && k.Value != nil && constant.Compare(k.Value, token.EQL, rawK) {
-						if call.Call.Args[0] == wbf.Params[0] && call.Call.Value == wbf.Params[2] {
-							found = true
-						}
+						found = true
 					}
 				}
 			}
